@@ -25,6 +25,7 @@ props! {
     c08 => "C08",
     c09 => "C09",
     c10 => "C10",
+    c11 => "C11",
     c17 => "C17",
     c19 => "C19",
 }
